@@ -173,11 +173,11 @@ Definition judge_commands (cmds : list string) : list bool :=
 (* ---------- byte level: what click.echo(json.dumps(doc, indent=K)) wrote for a document, against Model/OutputBytes.v ----------
    [ the model's serialisation of the document is the observed stdout, byte for byte;
      the specification's reader of the JSON grammar accepts the observed stdout and reads the same document as Python's json.loads;
-     the observed stdout is ASCII / well-formed UTF-8 ] *)
+     the observed stdout is well-formed UTF-8 (that it is even ASCII is a theorem about the model, not a demand of the property) ] *)
 Definition judge_bytes (doc : json) (out : string) : list bool :=
   [ String.eqb (stdout_of doc) out;
     match loads out with Some j => json_eqb j doc | None => false end;
-    ascii_bytes out && utf8_valid out ].
+    utf8_valid out ].
 (* json.dumps of single strings (arbitrary bytes under surrogateescape): the escaper against CPython, and the reader on its output *)
 Definition judge_jstr (cases : list (string * string)) : list bool :=
   flat_map (fun p => [ String.eqb (json_quote (fst p)) (snd p);
